@@ -110,6 +110,10 @@ def observe(interp, rec: Recorder, op, mark: int, exc=None) -> Obs:
     except Exception as e:  # noqa
         o.snapcfg = None
         o.extra["snap_exc"] = type(e).__name__
+    try:
+        o.extra["actors_running"] = sorted(k for k, a in list(getattr(interp, "_actors", {}).items()) if getattr(a, "status", None) == "running")
+    except Exception:  # noqa
+        pass
     o.vt = rec.now()
     return o
 
